@@ -5,6 +5,8 @@
   `Ev.modulate raw` stands for *any* integer it may produce, at any moment.
 -/
 import DtnVerif.Lemmas.TcpclSys
+import DtnVerif.Lemmas.TcpclSysLift
+import DtnVerif.Lemmas.TcpclNegotiated
 namespace DtnVerif
 namespace Tcpcl
 
@@ -128,6 +130,58 @@ theorem C14_seg_le_mru_sys (cfgA cfgB : Cfg) (sch : List SysEv)
   obtain ⟨PA, hA⟩ := hi.ia.tx
   obtain ⟨PB, hB⟩ := hi.ib.tx
   exact ⟨fun p hp => (hA.mru.1 p hp).2.2, fun p hp => (hB.mru.1 p hp).2.2⟩
+
+/-- **Both sides use the same, smaller keepalive interval, and what is on record about the peer is
+    what the peer is configured with.** In every reachable state of the two-endpoint system — any
+    schedule, chunking, user calls, timers — once an endpoint has the peer's SESS_INIT on record: the
+    recorded keepalive, segment MRU, transfer MRU and node ID are the peer's configured values, the
+    keepalive interval in use is `min` of the two configured intervals (zero if either is zero), and the
+    idle time in use is the endpoint's own configured one. Hence both sides agree on the interval. -/
+theorem C14_negotiation_sys (cfgA cfgB : Cfg) (sch : List SysEv)
+    (a1 : 0 < cfgA.segInit) (a2 : cfgA.privExt = false) (a3 : 0 < cfgA.segMru)
+    (b1 : 0 < cfgB.segInit) (b2 : cfgB.privExt = false) (b3 : 0 < cfgB.segMru)
+    (hwf : ∀ pre, pre <+: sch → SysWF (runSys (initSys cfgA cfgB) pre))
+    (hs : ∀ ev ∈ sch, ev.sendOK) :
+    let s := runSys (initSys cfgA cfgB) sch
+    (∀ p, s.a.peerInit = some p →
+        p.keepalive = cfgB.keepalive ∧ p.segMru = cfgB.segMru ∧ p.xferMru = sizeMax ∧ p.node = cfgB.nodeId
+        ∧ s.a.kaTime = min cfgA.keepalive cfgB.keepalive ∧ s.a.idleTime = cfgA.idle)
+    ∧ (∀ p, s.b.peerInit = some p →
+        p.keepalive = cfgA.keepalive ∧ p.segMru = cfgA.segMru ∧ p.xferMru = sizeMax ∧ p.node = cfgA.nodeId
+        ∧ s.b.kaTime = min cfgB.keepalive cfgA.keepalive ∧ s.b.idleTime = cfgB.idle) := by
+  intro s
+  have hi : SysInv s := sysInv_run sch _ (sysInv_init cfgA cfgB a1 a2 a3 b1 b2 b3) hwf hs
+  have hw : SysWF s := hwf sch (List.prefix_refl _)
+  obtain ⟨pB, pA⟩ := transport s hi hw
+  obtain ⟨na, nb⟩ := sys_lift_init NG ng_step ng_init cfgA cfgB sch
+  have cfgs : s.a.cfg = cfgA ∧ s.b.cfg = cfgB := by
+    have gen : ∀ (l : List SysEv) (t : Sys), (runSys t l).a.cfg = t.a.cfg ∧ (runSys t l).b.cfg = t.b.cfg := by
+      intro l
+      induction l with
+      | nil => intro t; exact ⟨rfl, rfl⟩
+      | cons ev rest ih =>
+        intro t
+        rw [runSys_cons]
+        obtain ⟨h1, h2⟩ := ih (sysStep t ev)
+        have hstep : (sysStep t ev).a.cfg = t.a.cfg ∧ (sysStep t ev).b.cfg = t.b.cfg := by
+          unfold sysStep
+          cases ev <;> simp only [] <;> split <;> simp [cfg_step]
+        exact ⟨h1.trans hstep.1, h2.trans hstep.2⟩
+    obtain ⟨g1, g2⟩ := gen sch (initSys cfgA cfgB)
+    exact ⟨g1.trans (cfg_step _ _), g2.trans (cfg_step _ _)⟩
+  have one : ∀ (x y : Ep) (cx cy : Cfg), NG x → EpInv y → x.processed <+: y.emitted → x.cfg = cx → y.cfg = cy →
+      ∀ p, x.peerInit = some p →
+        p.keepalive = cy.keepalive ∧ p.segMru = cy.segMru ∧ p.xferMru = sizeMax ∧ p.node = cy.nodeId
+        ∧ x.kaTime = min cx.keepalive cy.keepalive ∧ x.idleTime = cx.idle := by
+    intro x y cx cy hn hy hpre hcx hcy p hp
+    obtain ⟨k1, k2, ext, hmem⟩ := hn.1 p hp
+    have hem := hy.emit _ (hpre.subset hmem)
+    simp only [emitOK] at hem
+    obtain ⟨e1, e2, e3, e4⟩ := hem
+    rw [hcy] at e1 e2 e4
+    rw [hcx] at k1 k2
+    exact ⟨e2, e1, e3, e4, by rw [k1, e2], k2⟩
+  exact ⟨one s.a s.b cfgA cfgB na hi.ib pA cfgs.1 cfgs.2, one s.b s.a cfgB cfgA nb hi.ia pB cfgs.2 cfgs.1⟩
 
 /-- non-vacuity of the clamp: floor above the MRU, huge and negative controller outputs -/
 example : clampSeg (-5) 7 = 7 ∧ clampSeg 100000000 20000 = 20000 ∧ clampSeg 15000 20000 = 15000
